@@ -2,7 +2,7 @@
    the bridges between the shapes tools/c2int.py emits (machine arithmetic written out: a wrap at every unsigned shift,
    one read / one store per C statement) and the shapes of the hand model C19/IntDefs.v.  Nothing here mentions generated
    code; the statements are about IntDefs and the standard library only. *)
-From Coq Require Import NArith PeanoNat List Bool Lia.
+From Coq Require Import NArith ZArith PeanoNat List Bool Lia.
 From LibaV Require Import C19.IntDefs.
 Import ListNotations.
 Local Open Scope N_scope.
@@ -155,3 +155,19 @@ Proof. apply wrap_small. Qed.
 
 Lemma wrap_add_l w a b : wrap w (wrap w a + b) = wrap w (a + b).
 Proof. unfold wrap. apply N.add_mod_idemp_l. apply N.pow_nonzero. discriminate. Qed.
+
+(* ------------------------------------------------------------------ signed intermediates carried in Z
+   (c2int computes every signed subtraction in Z, with the range check of the type; here the values are small naturals) *)
+Lemma zrange_ok n : n < 2 ^ 31 ->
+  orb (Z.ltb (Z.of_N n) (-2147483648)%Z) (Z.ltb 2147483647%Z (Z.of_N n)) = false.
+Proof.
+  intros H. change (2 ^ 31) with 2147483648 in H. apply orb_false_intro; apply Z.ltb_ge; lia.
+Qed.
+
+Lemma znonneg n : Z.ltb (Z.of_N n) 0 = false.
+Proof. apply Z.ltb_ge. lia. Qed.
+
+Lemma z_shiftr_of_N a k : Z.shiftr (Z.of_N a) (Z.of_N k) = Z.of_N (N.shiftr a k).
+Proof.
+  rewrite Z.shiftr_div_pow2 by lia. rewrite N.shiftr_div_pow2, N2Z.inj_div, N2Z.inj_pow. reflexivity.
+Qed.
